@@ -623,6 +623,18 @@ Definition db_open (c : cfg) (k : disk) : open_res * list event :=
   let '(d4, ev5) := if torn_active then db_rotate d3 else (d3, []) in
   (OpenOk d4 (mkDisk [] (k_hint k2) (k_merge k2)), EvMkdirData :: ev1 ++ ev2 ++ ev3 ++ ev4 ++ ev5).
 
+(* checkOptions: what Open demands of its configuration before it touches anything (directory, lock, files) *)
+Record raw_opts := mkRaw {
+  o_dir_empty : bool;      (* DirPath == "" *)
+  o_fsize_pos : bool;      (* DataFileSize > 0 *)
+  o_ratio_ok : bool;       (* 0 <= DataFileMergeRatio <= 1 *)
+  o_bps : N;               (* BytesPerSync *)
+  o_sync : N;              (* SyncStrategy *)
+}.
+Definition check_options (o : raw_opts) : bool :=
+  negb (o_dir_empty o) && o_fsize_pos o && o_ratio_ok o && (o_bps o <=? 16777216) &&
+  negb ((o_sync o =? sync_Threshold) && (o_bps o =? 0)).
+
 (* ---- Close ----------------------------------------------------------------------- *)
 Fixpoint close_all (io : N) (files : list (N * lfile)) : list (N * lfile) * list event :=
   match files with
